@@ -39,7 +39,13 @@ META = {
                   'module is among the failing modules reported and the node does not start), attachments_accepted (every '
                   'module created, every given attachment good, no module attached to itself transitively => no module fails '
                   'to initialise, the node starts), init_fuel_suffices (the depth bound of the model of SecNode.get_module is '
-                  'never reached).  The hypotheses of '
+                  'never reached), main_unit_applied (for every unit oracle: the datatype every parameter of an accepted '
+                  'configuration shows - scalar, array, tuple / struct members, derived <p>_limits - is its datatype after its '
+                  'overrides with the unit of `value` AFTER the overrides of `value` put in for `$`; main_unit_only_units: that '
+                  'step changes nothing else), cfg_lookup_dir_major / earlier_dir_shadows / lookup_judged (to_config_path: a '
+                  'configuration name stands for the file of the FIRST configuration directory which has it under any of the '
+                  'suffixes _cfg.py, .py, none - in this order of preference within the directory -, a later directory is '
+                  'never preferred; load_config parses exactly these files in order or refuses).  The hypotheses of '
                   'the theorems (WellFormed class description, well-written Mod arguments) are checked by Lean on every case '
                   '(wellFormedB_sound, writtenOkB_sound).  The model is tied to frappy/modulebase.py, params.py, properties.py, '
                   'secnode.py, config.py by a correspondence run over generated (class, cfg) pairs through the real SecNode / '
@@ -47,7 +53,10 @@ META = {
                   'unchanged by a start), and the Lean monitors judge every observed record - for config files against the '
                   'configuration AS WRITTEN, for every module of every start (a clean node is started twice from the same '
                   'loaded configuration).  Configurations given as files are loaded and processed by the real Server '
-                  '(Server.__init__, Server._processCfg incl. its stderr report and sys.exit).',
+                  '(Server.__init__, Server._processCfg incl. its stderr report and sys.exit); most of them are started by '
+                  'NAME from 1-3 configuration directories, and a separate stream lets the real Server load names which exist '
+                  'in several directories / under several suffixes / not at all (confdir given through testinit, '
+                  'FRAPPY_CONFDIR or a [FRAPPY] section), judged by lookupB on the files parsed and on the content loaded.',
     'level_note': 'Trusted: Lean kernel + axioms propext/Classical.choice/Quot.sound; datatypes are oracles in the theorems '
                   '(laws assumed: none beyond totality; the driver instance for double/int/string/bool/enum/array/tuple on a '
                   'quarter grid is checked by the correspondence run only); the text of a config file is executed Python - '
@@ -63,7 +72,15 @@ META = {
     ],
     'modelled_not_verified': [
         'exec of the config file text (config.py:process_file); Mod/Param/Group calls are modelled, arbitrary Python in a file is not',
-        'Parameter.finish for `constant`, applyMainUnit ($ units), Command accessibles in the cfg, `datatype` given in the cfg',
+        'Parameter.finish for `constant`, `datatype` given in the cfg, that configured Command properties show in the description',
+        'the main-unit step is modelled as a pass over the accepted instance (the constructor runs it before the final '
+        'checks): assumes that replacing a unit does not change the outcome of checkProperties (proved for the driver instance: '
+        'checkDT_setMainUnit); datatype.unit / set_main_unit are oracles, the driver instance (FloatRange unit, ArrayOf.unit, '
+        'recursion into array and tuple members) is checked by the correspondence run only',
+        'StructOf parameters are observed as the tuple of their members in the order of the sorted member names (values, '
+        'datainfo, class description): optional members and arrays of structs are not generated',
+        'the file system is an oracle (isFile) - the harness tells Lean which files it wrote; GeneralConfig.init (where confdir '
+        'comes from) is exercised, not modelled',
         'mandatory properties of Parameter objects (description/datatype): always present in generated classes',
         'Server.__init__ / Server._processCfg (load_config, SecNode + Dispatcher, create_modules, the report on stderr, '
         'sys.exit(1)) are not modelled line by line: every configuration given as files is processed by the real Server '
@@ -77,6 +94,10 @@ META = {
     'assumptions': ['configuration dicts have unique keys (Python dict)',
                     'base parameters of Limit parameters precede them and have a datatype',
                     'a start only reads the loaded configuration (checked by observation on every case)',
+                    'the parameter called `value`, if a class has one, has a datatype (valueTypedB, checked on every case); the main '
+                    'unit does not itself contain `$` (never generated: it would be substituted into itself)',
+                    'reading of the statement for cfg names: the configuration directories are a path list - an earlier directory '
+                    'shadows later ones (the rule is read off to_config_path; it is documented nowhere else)',
                     'module names of a node are distinct (a dict); the empty string as value of an Attached property means '
                     '"not attached" (docstring of Attached), also for a mandatory one'],
 }
@@ -785,7 +806,10 @@ def inject(rng, spec, cfg, kind):
             its = [kv for kv in ent[1] if kv[0] != 'value']
             if rng.random() < 0.3 and not any(kv[0] == 'default' for kv in its):
                 # "only a default given": a default is not the required value
-                its.append(('default', valid_value(rng, final_dt_guess(q['dt'], its), 'inside')))
+                try:
+                    its.append(('default', valid_value(rng, final_dt_guess(q['dt'], its), 'inside')))
+                except ValueError:
+                    pass                        # limits already inverted by another injected error: no value fits
             if its:
                 cfg[q['name']] = ('dict', its)
             else:
@@ -2129,9 +2153,9 @@ def lookup_stream(ctx, res):
 def run(ctx):
     res = Result()
     res.rule = ('a case = one node: 1-4 modules of generated classes (1-5 parameters of double/int/string/bool/enum/array '
-                'datatypes, with/without write_/read_ methods, groups of 2-3 parameters sharing a rwhandler.CommonWriteHandler / '
+                'datatypes - also TupleOf / StructOf / ArrayOf(TupleOf), units referring to the main unit by `$` -, with/without write_/read_ methods, groups of 2-3 parameters sharing a rwhandler.CommonWriteHandler / '
                 'WriteHandler / a hand-written write_<p> popping its siblings from writeDict (started through the real '
-                'startModule + poll thread), needscfg, class-level values, Limit parameters, optional accessibles declared in a '
+                'startModule + poll thread), needscfg (with or without a default, declared here or only added to an inherited parameter), class-level values, Limit parameters, optional accessibles declared in a '
                 'base class and implemented or not, mandatory and optional module properties), cfg through raw dicts or '
                 'through 1-3 merged config files written with the DSL (Mod / Param(v, k=..) / bare value / Group / one Param '
                 'object bound to a variable and used by several modules), any subset configured, values inside/at/outside '
@@ -2142,7 +2166,9 @@ def run(ctx):
                 'string / nothing, also towards modules whose own configuration is erroneous; 30 % of the nodes have no '
                 'injected error; a node without configuration error is started a second time from the same '
                 'loaded configuration; the real Server._processCfg runs in a subprocess on four configurations (good, two '
-                'failing modules, optional attached modules good / typo + wrong kind); non-trivial = a module that is '
+                'failing modules, optional attached modules good / typo + wrong kind); config files live in 1-3 configuration '
+                'directories under any suffix and are given by name or path; lookup stream: 1-2 names present in any subset of '
+                '(directory, suffix) places of 1-3 directories in shuffled order; non-trivial = a module that is '
                 'registered with at least one configured parameter entry, or rejected with an injected error')
     rng = ctx.rng
     n = ctx.budget(1000, 20000)
